@@ -57,6 +57,13 @@ def _fa1new(n, k, tiers):
               f"{n} validators, {STAKES}, committee of {k}; constructed state inspected (number of deterministic seats, fallback size, fallback weights)", 2, kani_args=["--solver", "kissat"])
 
 
+def _fa1pnew(n, k, tiers):
+    return _h(f"c17_fa1p_new_n{n}_k{k}", tiers, "floor guarantee + residual weights/FA1 construction with partition fallback",
+              ["FaitAccompli1Sampler::new_with_partition_fallback (PartitionSampler::new cut by a recording stub)", "f64 division/multiplication/floor of the seat computation (bit-precise)"],
+              f"{n} validators, {STAKES}, committee of {k}; number of deterministic seats, and the validator list / residual stakes / number of bins handed to PartitionSampler::new", 2,
+              stubs=["disseminator::rotor::sampling_strategy::PartitionSampler::new"], kani_args=["--solver", "kissat"])
+
+
 def _fa1sample(k, r, tiers):
     return _h(f"c17_fa1_sample_k{k}_r{r}", tiers, "well-formed/FaitAccompli1Sampler::sample_quorum from a symbolic state",
               ["FaitAccompli1Sampler::{quorum_size,sample_quorum}", "IidQuorumSampler::sample_quorum", "StakeWeightedSampler::{new,sample}"] + RAND,
@@ -82,6 +89,7 @@ HARNESSES = [
     _decay(2, 2, 2, T), _decay(3, 2, 2, T), _decay(2, 2, 3, T),
     _psample(2, 2, Q), _psample(3, 2, T), _psample(4, 2, T),
     _fa1new(2, 2, Q), _fa1new(3, 2, T), _fa1new(3, 3, T), _fa1new(3, 4, T),
+    _fa1pnew(2, 3, Q), _fa1pnew(2, 2, T), _fa1pnew(3, 3, T),
     _fa1sample(2, 0, T), _fa1sample(2, 1, Q), _fa1sample(2, 2, T), _fa1sample(4, 1, T), _fa1sample(4, 3, T),
     _h("c17_fa2_minf_n2_k1", Q, "DEFECT/FA2 rounding assertion", ["FaitAccompli2Sampler::minimize_f"], f"2 validators, {STAKES}, committee of 1", 1),
     _h("c17_fa2_minf_n3_k2", T, "DEFECT/FA2 rounding assertion", ["FaitAccompli2Sampler::minimize_f"], f"3 validators, {STAKES}, committee of 2", 1),
